@@ -11,10 +11,15 @@ def sh(cmd, **k):
     return subprocess.run(cmd, shell=True, cwd=wt, env=env, capture_output=True, text=True, **k)
 ran = []
 sh("git checkout -- src")
-r = sh(f"/venv/bin/python -m pytest -q -p no:cacheprovider -x {demo}"); ran.append(("clean demo", r.returncode)); clean_ok = r.returncode == 0
+def rundemo():
+    r = sh(f"/venv/bin/python -m pytest -q -p no:cacheprovider {demo}", timeout=600)
+    if r.returncode == 5 or "demo.py" in (__import__("json").load(open(os.path.join(out, "meta.json"))).get("run_as_script") or ""):
+        r = sh(f"/venv/bin/python {demo}", timeout=600)
+    return r
+r = rundemo(); ran.append(("clean demo", r.returncode)); clean_ok = r.returncode == 0
 r = sh(f"git apply {out}/patch.diff"); ran.append(("apply", r.returncode)); apply_ok = r.returncode == 0
 r = sh("/venv/bin/python -m pytest -q -p no:cacheprovider --timeout=900 -x -q tests ops"); ran.append(("suite with patch", r.returncode, r.stdout.strip().splitlines()[-1:] )); suite_ok = r.returncode == 0
-r = sh(f"/venv/bin/python -m pytest -q -p no:cacheprovider {demo}"); ran.append(("patched demo", r.returncode)); demo_fails = r.returncode != 0
+r = rundemo(); ran.append(("patched demo", r.returncode)); demo_fails = r.returncode != 0
 sh("git checkout -- src")
 ok = clean_ok and apply_ok and suite_ok and demo_fails
 print(sid, "CONFIRMED" if ok else "REJECTED", ran)
